@@ -11,7 +11,7 @@ COQ_HEADER = 'From V Require Import Common.Num C12.Model.\nOpen Scope Q_scope.'
 RULE = ('histories of 3-30 operations (phases=, phase=, reduce_phases, as_stream, .vle/.lle/.sle, s[phase] view creation, '
         'writes through views (molar and mass basis, mass-basis reads that fill the view\'s cache) and through the parent, T/P writes through either side, get_data, set_data of any earlier '
         'snapshot, plus a malformed stream: invalid labels, empty/duplicate phase collections, uncovered targets, locked view '
-        'phase) on a real Stream or MultiStream over a 3-chemical stub package, dyadic flows distributed over a subset of '
+        'phase) on a real Stream or MultiStream (made by the constructor, or by MultiStream.from_streams from existing streams with their own T, P and caches) over a 3-chemical stub package, dyadic flows distributed over a subset of '
         's l g S L; after EVERY operation class, phases tuple, per phase x chemical flows, T, P, the flows/T/P seen through '
         'every view object obtained so far (and what its cached mass-basis indexer reads, when filled), whether it is still the parent\'s cached sub-stream, identity of what s[phase] '
         'returned and the exception class of the first raise are compared with the Coq model (values to 1e-9, structure '
@@ -44,7 +44,7 @@ VALS = [0., 1., -1., 0.5, -0.5, 2., 3., 0.25, 1024., 1 / 1024., 8., 1.5]
 TS = [298.15, 300., 350.5, 273.15, 512.]
 PS_ = [101325., 50000., 2.5, 1e5]
 ERR = {'RuntimeError': 'ERuntime', 'UndefinedPhase': 'EUndefPhase', 'TypeError': 'EType', 'IndexError': 'EIndex',
-       'AttributeError': 'EOther'}
+       'AttributeError': 'EOther', 'ValueError': 'EValue'}
 
 _env = {}
 def env():
@@ -62,7 +62,19 @@ def gen_vec(rng, p_zero=0.3):
         return [0.] * N
     return [rng.choice(VALS) if rng.random() < 0.7 else 0. for _ in range(N)]
 
+def gen_from_streams(rng):
+    """existing single-phase streams (own T, P, possibly a filled mass cache) handed to MultiStream.from_streams"""
+    r = rng.random()
+    k = 0 if r < 0.03 else rng.choice([1, 2, 2, 2, 3, 3, 4, 5])
+    phases = rng.sample(ALL, k)
+    if phases and r > 0.95: phases.append(rng.choice(phases))          # malformed: a phase twice
+    return {'kind': 'from_streams',
+            'streams': [{'phase': p, 'flow': gen_vec(rng, 0.2), 'T': rng.choice(TS), 'P': rng.choice(PS_),
+                         'mass': rng.random() < 0.3} for p in phases]}
+
 def gen_init(rng, subset=None):
+    if subset is None and rng.random() < 0.2:
+        return gen_from_streams(rng)
     if subset is None:
         k = rng.choice([1, 1, 2, 2, 2, 3, 3, 4, 5])
         subset = sorted(rng.sample(ALL, k))
@@ -168,6 +180,20 @@ CORPUS = [
      'ops': [['view', 'l'], ['view', 'g'], ['save'], ['T', 310.], ['P', 2.5], ['phases', ['g', 'l', 's']], ['phases', ['g', 'l', 's', 'L']],
              ['wview', 0, 0, 9.], ['wpar', 'l', 1, 10.], ['reduce'], ['sle'], ['wview', 0, 2, 3.], ['restore', 0], ['vT', 0, 333.],
              ['P', 1e5], ['wview', 1, 1, 0.25]]},
+    # streams with their own T, P (and a filled mass cache) put together by from_streams; T/P written through either side
+    {'init': {'kind': 'from_streams', 'streams': [
+        {'phase': 'l', 'flow': [2., 0., 0.], 'T': 300., 'P': 101325., 'mass': True},
+        {'phase': 'g', 'flow': [0., 1., 0.], 'T': 350.5, 'P': 50000., 'mass': False},
+        {'phase': 'L', 'flow': [0., 0.5, 0.25], 'T': 273.15, 'P': 2.5, 'mass': False}]},
+     'ops': [['T', 512.], ['vP', 2, 1e5], ['wview', 1, 0, 0.125], ['wvmass', 0, 1, 64.], ['phases', ['g', 'l', 'L', 's']], ['vT', 1, 300.],
+             ['save'], ['P', 2.5], ['wpar', 'L', 2, 4.5], ['sle'], ['restore', 0], ['vphase', 2, 'L'], ['view', 'g']]},
+    {'init': {'kind': 'from_streams', 'streams': [{'phase': 's', 'flow': [1., 0., 0.], 'T': 300., 'P': 101325., 'mass': False},
+                                                   {'phase': 'g', 'flow': [0., 0., 1.], 'T': 350.5, 'P': 2.5, 'mass': True}]},
+     'ops': [['vphase', 0, 'l'], ['P', 50000.], ['view', 's'], ['wview', 0, 1, 3.], ['phases', ['g', 's', 'l']], ['vphase', 0, 'l'], ['vT', 1, 512.]]},
+    {'init': {'kind': 'from_streams', 'streams': []}, 'ops': [['T', 300.]]},
+    # snapshot of a single-phase stream, re-labelling accessor, restore: the saved label must come back
+    {'init': {'kind': 'single', 'phase': 's', 'flow': [1., 0., 2.], 'T': 300., 'P': 101325.}, 'ops': [['save'], ['vle'], ['T', 350.5], ['restore', 0]]},
+    {'init': {'kind': 'single', 'phase': 'L', 'flow': [1., 0., 2.], 'T': 300., 'P': 101325.}, 'ops': [['save'], ['sle'], ['restore', 0], ['save'], ['phase', ['g']], ['lle'], ['reduce'], ['restore', 1]]},
     # Stream accessors relabel (solid -> liquid) / raise for 'S' (known findings, see WITNESSES)
     {'init': {'kind': 'single', 'phase': 's', 'flow': [1., 0., 0.], 'T': 300., 'P': 101325.}, 'ops': [['vle']]},
     {'init': {'kind': 'single', 'phase': 'S', 'flow': [1., 0., 0.], 'T': 300., 'P': 101325.}, 'ops': [['vle']]},
@@ -196,6 +222,20 @@ WITNESSES = [
 ]
 
 # ------------------------------------------------------------------ implementation side
+def build2(case):
+    """the stream under test and the sub-stream objects that exist from the start"""
+    tmo = env()['tmo']
+    i = case['init']
+    if i['kind'] != 'from_streams':
+        return build(case), []
+    streams = []
+    for x in i['streams']:
+        v = tmo.Stream(None, phase=x['phase'], T=x['T'], P=x['P'])
+        v.imol.data[:] = np.array(x['flow'], float)
+        if x['mass']: v.imass[IDS[0]]
+        streams.append(v)
+    return tmo.MultiStream.from_streams(streams), streams
+
 def build(case):
     tmo = env()['tmo']
     i = case['init']
@@ -295,13 +335,17 @@ def observe(s, views, lastret, saved):
             'flows': [[fr_json(frac(x)) for x in r] for _, r in fl],
             'T': fr_json(frac(s.T)), 'P': fr_json(frac(s.P)),
             'views': [{'label': v.phase, 'flow': [fr_json(frac(x)) for x in dense(v.mol)], 'T': fr_json(frac(v.T)),
-                       'P': fr_json(frac(v.P)), 'in': streams.get(v.phase) is v, 'mass': peek_mass(v)} for v in views],
+                       'P': fr_json(frac(v.P)), 'in': any(x is v for x in streams.values()), 'mass': peek_mass(v)} for v in views],
             'ret': lastret, 'saved': len(saved)}
 
 def run_impl(case):
-    s = build(case)
-    views, saved, lastret = [], [], 0
-    out = {'init': observe(s, views, lastret, saved), 'ops': [], 'obs': [], 'err': None}
+    try:
+        s, views = build2(case)
+    except ValueError as ex:
+        if case['init']['kind'] != 'from_streams': raise
+        return {'init': None, 'init_err': type(ex).__name__, 'ops': [], 'obs': [], 'err': None}
+    saved, lastret = [], 0
+    out = {'init': observe(s, views, lastret, saved), 'init_err': None, 'ops': [], 'obs': [], 'err': None}
     for op in case['ops']:
         r = resolve_op(s, op, views, saved)
         if r is None: continue
@@ -351,6 +395,13 @@ def cop(o):
 
 def cinit(case):
     i = case['init']
+    if i['kind'] == 'from_streams':
+        ss = clist([f'(mkss {cphase(x["phase"])} {qlist(x["flow"])} {q(x["T"])} {q(x["P"])} {cbool(x["mass"])})' for x in i['streams']])
+        return f'(from_streams {cnat(N)} {qlist(MWS)} {ss})'
+    return f'(Ok {cinit0(case)})'
+
+def cinit0(case):
+    i = case['init']
     if i['kind'] == 'single':
         return f'(init_single {cnat(N)} {qlist(MWS)} {cphase(i["phase"])} {qlist(i["flow"])} {q(i["T"])} {q(i["P"])})'
     rows = sorted(zip(i['phases'], i['rows']))
@@ -359,16 +410,19 @@ def cinit(case):
 
 def coq_case(case, out):
     err = None if out['err'] is None else ERR[out['err']]
-    return (f'(obs_eqb (observe {cinit(case)}) {cobs(out["init"])} && '
-            f'trace_eqb {cinit(case)} {clist([cop(o) for o in out["ops"]])} {clist([cobs(o) for o in out["obs"]])} {copt(err)})')
+    if out.get('init_err'):
+        return f'(with_init {cinit(case)} (Some {ERR[out["init_err"]]}) (fun _ => true))'
+    return (f'(with_init {cinit(case)} None (fun s0 => obs_eqb (observe s0) {cobs(out["init"])} && '
+            f'trace_eqb s0 {clist([cop(o) for o in out["ops"]])} {clist([cobs(o) for o in out["obs"]])} {copt(err)}))')
 
 def coq_show(case, out):
-    return f'(trace {cinit(case)} {clist([cop(o) for o in out["ops"]])})'
+    return f'(match {cinit(case)} with Ok s0 => trace s0 {clist([cop(o) for o in out["ops"]])} | Err e => ([], Some e) end)'
 
 def nontrivial(case, out):
-    return len(out.get('obs', [])) >= 2 and any(o != out['init'] for o in out['obs'])
+    return bool(out.get('init_err')) or (len(out.get('obs', [])) >= 2 and any(o != out['init'] for o in out['obs']))
 
 def classify(case, out):
+    if out.get('init_err'): return ['init:from_streams', 'raise:from_streams:' + out['init_err']]
     ks = ['init:' + case['init']['kind'], 'len:%02d-%02d' % (len(out['ops']) // 10 * 10, len(out['ops']) // 10 * 10 + 9)]
     prev = out['init']
     for o, ob in zip(out['ops'], out['obs']):
@@ -397,10 +451,22 @@ CONVERSIONS = ('phases', 'phase', 'reduce', 'as_stream', 'vle', 'lle', 'sle', 'v
 
 def oracle(case):
     tmo = env()['tmo']
-    s = build(case)
-    views, saved = [], []
-    live = []        # per view: still expected to be a live sub-stream (same multi-phase episode, label has a row)
+    try:
+        s, views = build2(case)
+    except ValueError:
+        ps = [x['phase'] for x in case['init'].get('streams', [])]
+        if ps and len(set(ps)) == len(ps): return 'from_streams: raised ValueError for streams of distinct phases'
+        return None
+    views = list(views); saved = []
+    live = [True] * len(views)   # per view: still expected to be a live sub-stream (same multi-phase episode, label has a row)
+    keys = [v.phase for v in views]   # the phase under which each sub-stream was obtained
     records = []     # independent record of what was saved
+    known_msg = None
+    for k, v in enumerate(views):     # streams handed to from_streams are sub-streams from the start
+        if v.T != s.T or v.P != s.P:
+            return f'view {k} ({keys[k]}) does not share T/P with its parent right after from_streams'
+        if dense(v.mol) != dict(flows_of(s))[keys[k]]:
+            return f'views_live: sub-stream {keys[k]!r} does not read the parent\'s row right after from_streams'
     for step, op in enumerate(case['ops']):
         r = resolve_op(s, op, views, saved)
         if r is None: continue
@@ -428,7 +494,7 @@ def oracle(case):
         elif name == 'view':
             required = (r[1] in s.phases or (r[1] != 'g' and swap(r[1]) in s.phases)) if was_multi else r[1].lower() == s.phase.lower()
         elif name == 'vphase':
-            required = views[r[1]].phase == r[2]
+            required = views[r[1]].phase == r[2] or type(views[r[1]]._imol._phase).__name__ == 'Phase'
         elif name == 'wpar':
             required = (not was_multi) or r[1] in s.phases or (r[1] != 'g' and swap(r[1]) in s.phases)
         was = f"[was {'MultiStream' if was_multi else 'Stream'} ({','.join(p for p, _ in before)})]"
@@ -438,7 +504,7 @@ def oracle(case):
             if required:
                 return f'{name}: raised {type(ex).__name__} although the operation is inside the property\'s quantifier (step {step}, {r}) {was}'
             return None
-        while len(live) < len(views): live.append(True)
+        while len(live) < len(views): live.append(True); keys.append(views[len(keys)].phase)
         if name == 'view' and ret:
             live[ret - 1] = True     # whatever s[phase] hands out IS the sub-stream of the multi-phase stream now
         after = flows_of(s); T1, P1 = s.T, s.P
@@ -466,16 +532,23 @@ def oracle(case):
                         return f'{name}: placement: the added phase {p!r} is not empty: {row} (step {step}, {r}) {was}'
             if covers(set(new), ne) or name in ('vle', 'lle', 'sle', 'reduce', 'as_stream'):
                 # placement: material of p ends in p if the result has p, else in the other case
-                exp = {p: [0.] * N for p in new}
-                for p, row in before:
-                    if not any(row): continue
-                    d = p if p in new else (swap(p) if p != 'g' and swap(p) in new else None)
-                    if d is None:
-                        return f'{name}: material of phase {p!r} has no place in the resulting phases {tuple(new)} (step {step}, {r}) {was}'
-                    exp[d] = [a + b for a, b in zip(exp[d], row)]
-                for p, row in after:
-                    if not close(row, exp[p]):
-                        return f'{name}: placement: phase {p!r} holds {row}, expected {exp[p]} (step {step}, {r}) {was}'
+                def placement_msg():
+                    exp = {p: [0.] * N for p in new}
+                    for p, row in before:
+                        if not any(row): continue
+                        d = p if p in new else (swap(p) if p != 'g' and swap(p) in new else None)
+                        if d is None:
+                            return f'{name}: material of phase {p!r} has no place in the resulting phases {tuple(new)} (step {step}, {r}) {was}'
+                        exp[d] = [a + b for a, b in zip(exp[d], row)]
+                    for p, row in after:
+                        if not close(row, exp[p]):
+                            return f'{name}: placement: phase {p!r} holds {row}, expected {exp[p]} (step {step}, {r}) {was}'
+                msg = placement_msg()
+                if msg:
+                    # a registered relabel of a Stream accessor does not end the history: what follows (a restore, views ...)
+                    # is still checked, and the registered message is reported only if nothing else fails
+                    if finding_key(case, msg) not in REGISTERED: return msg
+                    known_msg = known_msg or msg
         elif name in ('wview', 'wpar'):
             pass
         elif name in ('T', 'P', 'vT', 'vP', 'vphase', 'vmass'):
@@ -489,7 +562,7 @@ def oracle(case):
         # liveness of the sub-streams obtained so far
         cur = [p for p, _ in after]
         for k, v in enumerate(views):
-            lbl = v.phase
+            lbl = keys[k]
             d = lbl if lbl in cur else (swap(lbl) if lbl != 'g' and swap(lbl) in cur else None)
             if not is_multi or d is None: live[k] = False
             if v.T != s.T or v.P != s.P:
@@ -504,12 +577,12 @@ def oracle(case):
                     return (f'views_live: after {name} the sub-stream {lbl!r} obtained earlier reads {dense(v.mol)} but the '
                             f'parent\'s {d!r} row is {row} (step {step}, {r})')
         if name == 'wview' and live[r[1]]:
-            lbl = views[r[1]].phase
+            lbl = keys[r[1]]
             d = lbl if lbl in cur else swap(lbl)
             if dict(after)[d][r[2]] != r[3]:
                 return f'views_live: write through sub-stream {lbl!r} is not visible in the parent (step {step}, {r})'
         if name == 'wvmass' and live[r[1]]:
-            lbl = views[r[1]].phase
+            lbl = keys[r[1]]
             d = lbl if lbl in cur else swap(lbl)
             if not close([dict(after)[d][r[2]]], [r[3] / MWS[r[2]]]):
                 return (f'views_live(mass basis): write of {r[3]} kg/hr through sub-stream {lbl!r} is not visible in the parent '
@@ -522,7 +595,9 @@ def oracle(case):
                 old = dict(before)[p]
                 if [x for i, x in enumerate(row) if (p, i) != (d, r[2])] != [x for i, x in enumerate(old) if (p, i) != (d, r[2])]:
                     return 'wpar: another entry changed'
-    return None
+    return known_msg
+
+REGISTERED = {w['key'] for w in WITNESSES}
 
 def finding_key(case, msg):
     head = msg.split(':')[0]
